@@ -37,6 +37,7 @@ type Config struct {
 	XOR2            bool    `json:"xor2,omitempty"`
 	HistST          bool    `json:"histst,omitempty"`
 	Sharding        bool    `json:"shard,omitempty"`
+	RichLabels      bool    `json:"rich,omitempty"` // C16 / C18: label sets with shared, absent and extra labels
 	Exemplars       bool    `json:"ex,omitempty"`
 	V2              bool    `json:"v2,omitempty"`
 	ReplayConc      int     `json:"rc,omitempty"`
@@ -200,6 +201,13 @@ func GenConfig(prop, tier string, seed uint64) Config {
 		if r.Chance(0.3) {
 			c.RetentionMs = c.R * int64(r.Range(1, 6))
 		}
+	case "C16":
+		c.RichLabels = true
+		c.NSeries = r.Range(4, 12)
+	case "C18":
+		c.RichLabels = true
+		c.NSeries = r.Range(4, 12)
+		c.Sharding = true
 	case "C53":
 		c.ROCheck = true
 	case "C23":
